@@ -81,8 +81,12 @@ func (f *countingReader) Read(p []byte) (int, error) {
 }
 
 func parseWith(rd io.Reader) (evs []parseEvent, ret error, pnc string) {
+	return parseWithConfig(rd, parser.NewDefaultConfig())
+}
+
+func parseWithConfig(rd io.Reader, cfg parser.Config) (evs []parseEvent, ret error, pnc string) {
 	pnc = safely(func() {
-		ret = parser.ParseStreamCallback(rd, parser.NewDefaultConfig(), func(n *shared.ParserNode, err error) (bool, error) {
+		ret = parser.ParseStreamCallback(rd, cfg, func(n *shared.ParserNode, err error) (bool, error) {
 			if err != nil {
 				evs = append(evs, parseEvent{Err: err.Error()})
 			} else {
